@@ -376,9 +376,32 @@ func ruleArgAgree(c *Ctx, r *Rep, tier string) {
 	allInstrs(bin, func(ins ssa.Instruction) {
 		if call, ok := ins.(*ssa.Call); ok && staticCallee(&call.Call) == bf {
 			// BinFor(r.Pos, r.End())
+			// (what exactly the end is – End(), or one past Pos for an empty
+			// interval – is BIN-UNPLACED's #length-one; here: it comes from End())
 			f, _ := loadedField(call.Call.Args[0])
-			e, isCall := call.Call.Args[1].(*ssa.Call)
-			if f != nil && f.Name() == "Pos" && isCall && staticCallee(&e.Call) != nil && staticCallee(&e.Call).Name() == "End" {
+			var fromEnd func(v ssa.Value, d int) bool
+			fromEnd = func(v ssa.Value, d int) bool {
+				if d > 6 {
+					return false
+				}
+				switch x := v.(type) {
+				case *ssa.Call:
+					g := staticCallee(&x.Call)
+					return g != nil && g.Name() == "End"
+				case *ssa.Phi:
+					for _, e := range x.Edges {
+						if fromEnd(e, d+1) {
+							return true
+						}
+					}
+				case *ssa.Convert:
+					return fromEnd(x.X, d+1)
+				case *ssa.BinOp:
+					return fromEnd(x.X, d+1) || fromEnd(x.Y, d+1)
+				}
+				return false
+			}
+			if f != nil && f.Name() == "Pos" && fromEnd(call.Call.Args[1], 0) {
 				usesBinFor = true
 			}
 		}
